@@ -52,6 +52,7 @@ def scenario(pred, hist, sel_i, rng, missing_style, case):
     rows = []
     for i, h in enumerate(hist):
         row = {"id": i + 1, "g": h["g"]}
+        if h["g"] == "__missing__": del row["g"]
         if h["v"] == NUL:
             if missing_style == "null" or (missing_style == "mix" and i % 2 == 0):
                 row["v"] = None
@@ -105,12 +106,30 @@ def run(tier):
         pred = rng.choice(list(MENU))
         L = rng.choice([8, 12, 20])
         groups = ["a", "b", "c", "d"][:rng.choice([1, 2, 4])]
+        if rng.random() < 0.3:
+            groups = rng.choice([["", None], ["", None, "a"], ["", "__missing__"]])      # the NULL group and the empty-string group are two groups
         hist = [{"g": rng.choice(groups), "v": rng.choice([NUL, -1, -1, 0, 1, 2, 3, 5])} for _ in range(L)]
         if pred in ("max>=3|count>=3", "sum>3|count>=3", "band:sum", "tier:sum,count"):      # see GlobalWin.LeftNullable: NULL values only in the model-generated behaviours
             for h in hist:
                 if h["v"] == NUL:
                     h["v"] = 1
         scen.append(scenario(pred, hist, rng.randrange(len(SELECTS)), rng, "mix", "upper"))
+    # trigger aggregates over a NESTED field only (no COUNT(*) in the predicate)
+    for _ in range(40 if quick else 1500):
+        pred = rng.choice(["sum>3", "max>=3", "min<0", "avg>=2"])
+        groups = ["a", "b"][:rng.choice([1, 2])]
+        hist = [{"g": rng.choice(groups), "v": rng.choice([-1, 0, 1, 2, 3, 5])} for _ in range(rng.choice([8, 12]))]
+        sc = scenario(pred, hist, 0, rng, "mix", "upper")
+        sc["sql"] = sc["sql"].replace("(v)", "(o.v)")
+        sc["rows"] = [dict({k: v for k, v in r.items() if k != "v"}, o={"v": r["v"]}) if "v" in r else r for r in sc["rows"]]
+        def nest(x):
+            if isinstance(x, dict):
+                if x.get("k") == "col" and x.get("c") == "v": return {"k": "path", "p": ["o", "v"]}
+                return {k: nest(v) for k, v in x.items()}
+            if isinstance(x, list): return [nest(y) for y in x]
+            return x
+        sc["meta"] = nest(sc["meta"]); sc["norename"] = True
+        scen.append(sc)
     # STATETTL: a group that keeps receiving rows (gaps well below the TTL) is never reaped, however long it takes to fire
     for _ in range(4 if quick else 24):
         ng = rng.choice([1, 2])
